@@ -41,7 +41,7 @@ Definition sb (s : string) : list N := map N_of_ascii (list_ascii_of_string s).
 Inductive kind := KObj | KCallable.     (* a Referenceable | a bound method / function (sent by CallableSlicer) *)
 Record objinfo := { o_kind : kind;
                     o_attrs : list string;              (* every attribute name getattr() would find *)
-                    o_iface : option (list string) }.   (* method names of its RemoteInterface, if it has one *)
+                    o_iface : option (list string) }.   (* method names of the RemoteInterface its CLASS declares, if any *)
 Record world := { w_obj : Z -> objinfo }.
 
 (* ---------- state *)
@@ -52,26 +52,28 @@ Record state := { s_n2r : list (string * Z);            (* Tub.nameToReference *
                   s_r2n : list (Z * string);            (* Tub.referenceToName *)
                   s_copy : list (string * Z);           (* copyable.CopyableRegistry: type name -> class *)
                   s_h : list (string * Z);              (* what the application's name lookup handler currently serves *)
+                  s_decl : list (Z * list string);      (* RemoteInterface declared on an INSTANCE (directlyProvides / alsoProvides):
+                                                           object -> its method names *)
                   s_a : conn; s_b : conn }.
 Inductive cid := CA | CB.
 
 Definition get_conn (st : state) (c : cid) : conn := match c with CA => s_a st | CB => s_b st end.
 Definition set_conn (st : state) (c : cid) (x : conn) : state :=
   match c with
-  | CA => {| s_n2r := s_n2r st; s_r2n := s_r2n st; s_copy := s_copy st; s_h := s_h st; s_a := x; s_b := s_b st |}
-  | CB => {| s_n2r := s_n2r st; s_r2n := s_r2n st; s_copy := s_copy st; s_h := s_h st; s_a := s_a st; s_b := x |}
+  | CA => {| s_n2r := s_n2r st; s_r2n := s_r2n st; s_copy := s_copy st; s_h := s_h st; s_decl := s_decl st; s_a := x; s_b := s_b st |}
+  | CB => {| s_n2r := s_n2r st; s_r2n := s_r2n st; s_copy := s_copy st; s_h := s_h st; s_decl := s_decl st; s_a := s_a st; s_b := x |}
   end.
 Definition set_names (st : state) (n2r : list (string * Z)) (r2n : list (Z * string)) : state :=
-  {| s_n2r := n2r; s_r2n := r2n; s_copy := s_copy st; s_h := s_h st; s_a := s_a st; s_b := s_b st |}.
+  {| s_n2r := n2r; s_r2n := r2n; s_copy := s_copy st; s_h := s_h st; s_decl := s_decl st; s_a := s_a st; s_b := s_b st |}.
 Definition set_copy (st : state) (cp : list (string * Z)) : state :=
-  {| s_n2r := s_n2r st; s_r2n := s_r2n st; s_copy := cp; s_h := s_h st; s_a := s_a st; s_b := s_b st |}.
+  {| s_n2r := s_n2r st; s_r2n := s_r2n st; s_copy := cp; s_h := s_h st; s_decl := s_decl st; s_a := s_a st; s_b := s_b st |}.
 
 Definition new_conn : conn := {| c_alive := true; c_exports := []; c_next := first_clid |}.
 (* classes registered by importing foolscap get the ids -1, -2, ... in the order of the translated key list *)
 Fixpoint number_from (k : Z) (l : list string) : list (string * Z) :=
   match l with [] => [] | n :: r => (n, k) :: number_from (k - 1) r end.
 Definition init : state :=
-  {| s_n2r := []; s_r2n := []; s_copy := number_from (-1) copyable_names; s_h := []; s_a := new_conn; s_b := new_conn |}.
+  {| s_n2r := []; s_r2n := []; s_copy := number_from (-1) copyable_names; s_h := []; s_decl := []; s_a := new_conn; s_b := new_conn |}.
 
 (* ---------- inbound messages *)
 Inductive mname := MStr (s : string) | MBad.            (* the bytes of a STRING token: UTF-8 text | undecodable *)
@@ -198,6 +200,16 @@ Definition obj_call (w : world) (copy : list (string * Z)) (cn : conn) (clid : Z
       end
   end.
 
+(* the RemoteInterface an object exposes (remoteinterface.getRemoteInterface: the one RemoteInterface among providedBy(obj)):
+   the one its class declares (inherited by subclasses), else the one declared on the instance.  Looked up per instance. *)
+Definition iface_of (w : world) (decl : list (Z * list string)) (o : Z) : option (list string) :=
+  match o_iface (w_obj w o) with
+  | Some l => Some l
+  | None => match interface_lookup with PerInstance => zget o decl end
+  end.
+Definition eff (w : world) (decl : list (Z * list string)) : world :=
+  {| w_obj := fun o => {| o_kind := o_kind (w_obj w o); o_attrs := o_attrs (w_obj w o); o_iface := iface_of w decl o |} |}.
+
 (* ---------- state changes *)
 Fixpoint find_obj (o : Z) (l : list (Z * (Z * Z))) : option (Z * Z) :=      (* myReferenceByPUID: -> (clid, rc) *)
   match l with
@@ -253,6 +265,8 @@ Inductive event :=
 | RegisterCopy (n : string) (cls : Z)                   (* registerRemoteCopy(n, cls) *)
 | RegisterCopyPriv (n : string) (cls : Z) (empty : bool) (* registerRemoteCopy*(n, cls, registry=<a private dict>); empty: that dict
                                                            has no entry yet (an input: the private dict is application state) *)
+| Declare (o : Z) (d : option (list string))            (* directlyProvides / alsoProvides / noLongerProvides on the instance o,
+                                                           before o is first sent or called *)
 | Serve (n : string) (o : Z)                            (* the application's lookup handler starts answering n with o *)
 | Revoke (n : string)                                   (* ... stops answering n *)
 | HandlerOff                                            (* tub.unregisterNameLookupHandler: nothing is served any more *)
@@ -278,9 +292,12 @@ Definition step (w : world) (st : state) (e : event) : state * result :=
      | DefaultIfNone => st
      | DefaultIfFalsy => if empty then (if is_some (sget n (s_copy st)) then st else set_copy st (sset n cls (s_copy st))) else st
      end, res0 Local)
-  | Serve n o => ({| s_n2r := s_n2r st; s_r2n := s_r2n st; s_copy := s_copy st; s_h := sset n o (s_h st); s_a := s_a st; s_b := s_b st |}, res0 Local)
-  | Revoke n => ({| s_n2r := s_n2r st; s_r2n := s_r2n st; s_copy := s_copy st; s_h := sdel n (s_h st); s_a := s_a st; s_b := s_b st |}, res0 Local)
-  | HandlerOff => ({| s_n2r := s_n2r st; s_r2n := s_r2n st; s_copy := s_copy st; s_h := []; s_a := s_a st; s_b := s_b st |}, res0 Local)
+  | Declare o d =>
+    ({| s_n2r := s_n2r st; s_r2n := s_r2n st; s_copy := s_copy st; s_h := s_h st;
+        s_decl := match d with Some l => zset o l (s_decl st) | None => zdel o (s_decl st) end; s_a := s_a st; s_b := s_b st |}, res0 Local)
+  | Serve n o => ({| s_n2r := s_n2r st; s_r2n := s_r2n st; s_copy := s_copy st; s_h := sset n o (s_h st); s_decl := s_decl st; s_a := s_a st; s_b := s_b st |}, res0 Local)
+  | Revoke n => ({| s_n2r := s_n2r st; s_r2n := s_r2n st; s_copy := s_copy st; s_h := sdel n (s_h st); s_decl := s_decl st; s_a := s_a st; s_b := s_b st |}, res0 Local)
+  | HandlerOff => ({| s_n2r := s_n2r st; s_r2n := s_r2n st; s_copy := s_copy st; s_h := []; s_decl := s_decl st; s_a := s_a st; s_b := s_b st |}, res0 Local)
   | Grant c o sw => let '(st', sent) := grant w st c o sw in (st', {| r_inst := []; r_out := Local; r_sent := sent |})
   | Drop c => (set_conn st c (drop_conn (get_conn st c)), res0 Local)
   | TopMsg c t => (st, res0 (if c_alive (get_conn st c) then Reject else Dead))
@@ -303,7 +320,7 @@ Definition step (w : world) (st : state) (e : event) : state * result :=
         end
       end
     else
-      let '(inst, out) := obj_call w (s_copy st) cn clid m args in
+      let '(inst, out) := obj_call (eff w (s_decl st)) (s_copy st) cn clid m args in
       (match out with Aborted => set_conn st c (drop_conn cn) | _ => st end,
        {| r_inst := inst; r_out := out; r_sent := [] |})
   end.
@@ -333,7 +350,7 @@ Definition is_lookup (e : event) : bool :=
 (* what connection c and the copyable registry can see: c's own events and RegisterCopy *)
 Definition relevant (c : cid) (e : event) : bool :=
   match e with
-  | RegisterCopy _ _ | RegisterCopyPriv _ _ _ => true
+  | RegisterCopy _ _ | RegisterCopyPriv _ _ _ | Declare _ _ => true
   | Register _ _ _ | Unregister _ | Serve _ _ | Revoke _ | HandlerOff => false
   | _ => match on_conn e with Some c' => cid_eqb c c' | None => false end
   end.
